@@ -1,0 +1,33 @@
+//go:build verif
+
+/*
+ * Licensed to the Apache Software Foundation (ASF) under one or more
+ * contributor license agreements.  See the NOTICE file distributed with
+ * this work for additional information regarding copyright ownership.
+ * The ASF licenses this file to You under the Apache License, Version 2.0
+ * (the "License"); you may not use this file except in compliance with
+ * the License.  You may obtain a copy of the License at
+ *
+ *     http://www.apache.org/licenses/LICENSE-2.0
+ *
+ * Unless required by applicable law or agreed to in writing, software
+ * distributed under the License is distributed on an "AS IS" BASIS,
+ * WITHOUT WARRANTIES OR CONDITIONS OF ANY KIND, either express or implied.
+ * See the License for the specific language governing permissions and
+ * limitations under the License.
+ */
+
+package exec
+
+// Verification contracts (comment-only, tag verif) for property C05: a TCC prepare registers its
+// Verification contracts (comment-only, tag verif) for property C16: building the executor for a
+// statement must not make a statement fail that the target database would accept.
+// The SQL parser is the environment (it may reject any text: it does not cover all of MySQL).
+//@ ext seata.apache.org/seata-go/pkg/datasource/sql/parser.DoParser
+//@   ensures result1 == nil ==> result0 != nil
+
+//@ func BuildExecutor
+//@   prop C16
+//@   ensures local-statements-need-no-parse: transactionMode == types.Local ==> result1 == nil && result0 != nil
+//@   ensures success-has-an-executor: result1 == nil ==> result0 != nil
+//@   may_panic
